@@ -393,6 +393,64 @@ func TestC02(t *testing.T) {
 			}
 		}
 	}
+	// (4b) completeness on long streams in arbitrary transport chunks: every frame of a multi-kilobyte stream of valid
+	// frames (longer than the reader's buffer) must be delivered in order with the right value, whatever the chunking
+	{
+		var list []*msgInfo
+		for _, mi := range genv.layouts {
+			list = append(list, mi)
+		}
+		nStreams := vh.Pick(40, 2000)
+		for si := 0; si < nStreams; si++ {
+			var stream []byte
+			type exp struct {
+				mi  *msgInfo
+				val reflect.Value
+				s   *ref.FrameSpec
+			}
+			var want []exp
+			n := 20 + r.Intn(50)
+			for i := 0; i < n; i++ {
+				mi := list[r.Intn(len(list))]
+				version := 1 + r.Intn(2)
+				if mi.Msg.GetID() > 255 {
+					version = 2
+				}
+				sp, val := validFrame(r, mi, version, r.Intn(3)*(version-1), version == 2 && r.Chance(1, 5), nil)
+				stream = append(stream, ref.Serialize(sp)...)
+				want = append(want, exp{mi, val, sp})
+			}
+			max := []int{7, 64, 100, 700}[si%4]
+			rep.Eval(1)
+			rep.Distinct(stream)
+			rep.Count("long_chunked_streams", 1)
+			guard(rep, "kind=panic long-stream", func() interface{} { return len(stream) }, func() {
+				rd := &frame.Reader{ByteReader: &chunkReader{data: stream, r: r.Fork(), max: max}, DialectRW: genv.drw}
+				_ = rd.Initialize()
+				for i, w := range want {
+					fr, err := rd.Read()
+					if err != nil {
+						rep.Violation("kind=undelivered msg=long-stream", fmt.Sprintf("frame %d of a stream of valid frames (chunks <= %d bytes) was not delivered: %v", i, max, err),
+							map[string]interface{}{"frame": vh.Hex(ref.Serialize(w.s)), "msg": w.mi.Name, "stream_len": len(stream)})
+						return
+					}
+					got := fromFrame(fr)
+					m := frameMessage(fr)
+					canon := w.mi.Layout.Canonical(w.val, w.s.Version == 2)
+					okv := reflect.TypeOf(m) == canon.Type()
+					if okv {
+						okv, _ = w.mi.Layout.BitEqual(reflect.ValueOf(m), canon)
+					}
+					if got.MsgID != w.s.MsgID || got.Seq != w.s.Seq || got.Sys != w.s.Sys || got.Comp != w.s.Comp || !okv {
+						rep.Violation("kind=undelivered msg=long-stream", fmt.Sprintf("frame %d of a stream of valid frames was delivered with a different header or value (chunks <= %d bytes)", i, max),
+							map[string]interface{}{"frame": vh.Hex(ref.Serialize(w.s)), "msg": w.mi.Name, "delivered": descFrame(fr)})
+						return
+					}
+				}
+			})
+		}
+	}
 	rep.Floor("damaged_streams", 1000)
 	rep.Floor("valid_frames", 50)
+	rep.Floor("long_chunked_streams", 20)
 }
